@@ -720,14 +720,14 @@ def returns_ast(ctx: TermCtx, fi: FuncInfo) -> bool:
 
 
 # ---------------------------------------------------------------------------------- role-based discovery
-def view(model: Model, fi: Optional[FuncInfo]) -> Optional[FuncInfo]:
+def view(model: Model, fi: Optional[FuncInfo], keep=()) -> Optional[FuncInfo]:
     """the normalised view of a function (sa/normalise.py): private helpers it returns through / calls as procedures
     inlined, literal dispatch tables read as if-chains. Reports still name the real function."""
     if fi is None:
         return None
     from .normalise import unrolled
 
-    return unrolled(model, fi)
+    return unrolled(model, fi, frozenset(keep))
 
 
 def private_callees(model: Model, fi: FuncInfo) -> List[FuncInfo]:
